@@ -13,7 +13,7 @@ Any construct outside the whitelist raises Undecided.
 import ast
 
 from .index import Undecided
-from .match import dotted, src, const, NOCONST
+from .match import dotted, src, const, NOCONST, NOISE_ROOTS
 
 
 class Raised(Exception):
@@ -213,6 +213,9 @@ class Interp(object):
                     except Exception:
                         raise Raised('TypeError')
                 raise Undecided('method %s on %s' % (f.attr, type(v).__name__))
+        dn = dotted(f)
+        if dn is not None and dn.split('.')[0] in NOISE_ROOTS:
+            return None     # logging has no bearing on the match
         if isinstance(f, ast.Name) and self.resolve_call:
             tgt = self.resolve_call(e, unit)
             if tgt is not None:
